@@ -41,7 +41,8 @@ ASSUMPTIONS = [
     "held ValueReferences are only used while their value is still in the list and the view "
     "is alive (documented validity rules)",
 ]
-PROBES = ["remove_first_value", "remove_last_value", "remove_middle_value",
+PROBES = ["same_named_list_field_in_second_paragraph", "references_made_mid_session_kept",
+          "view_entered_again_after_abort_with_edits_pending", "remove_first_value", "remove_last_value", "remove_middle_value",
           "remove_next_to_comment_line", "comma_before_comment_line", "tab_continuation",
           "append_after_trailing_separator", "two_views_committed_in_reverse_open_order",
           "untouched_commit", "abort_discards_changes", "refused_edit", "held_reference_used",
@@ -146,8 +147,20 @@ def generate(seed, run, tier):
         segs.append(Seg(comment, body))
     paras = [segs]
     seps = []
-    if rs.random() < 0.3:
-        paras.append([Seg("", gen_body(rw, "Package")), Seg("", gen_body(rw, "Arch"))])
+    twins = []
+    if rs.random() < 0.4:
+        second = [Seg("", gen_body(rw, "Package"))]
+        if rs.random() < 0.6:
+            # the second paragraph has list fields of the same names - some of them byte for
+            # byte the same text as in the first
+            for s_ in segs:
+                if s_.name in LISTNAMES[:nlist] and rw.random() < 0.7:
+                    second.append(Seg("", s_.body if rw.random() < 0.6 else
+                                      gen_list_body(rw, s_.name, kinds[s_.name])))
+                    twins.append(s_.name)
+        else:
+            second.append(Seg("", gen_body(rw, "Arch")))
+        paras.append(second)
         seps.append(rw.choice(["\n", "\n# free\n\n"]))
     trailing = rw.choice(["", "", "\n"])
     doc = Doc(rw.choice(["", "", "# top\n\n"]), paras, seps, trailing)
@@ -174,6 +187,8 @@ def generate(seed, run, tier):
         k = rq.choice(kindsl)
         f = rq.choice(listnames)
         st = {"op": k, "field": f}
+        if f in twins and rq.random() < 0.4:
+            st["pi"] = 1          # the field of that name in the second paragraph
         if same_field and rq.random() < 0.35:
             st["vi"] = 1          # the second client's view of the same field
         if k == "stale_ref":
@@ -197,6 +212,7 @@ def generate(seed, run, tier):
             st["which"] = rq.choice([0, 0, 1, 2, -1, -1, 3])
         if k in ("ref_set", "ref_remove"):
             st["held"] = rq.random() < 0.3
+            st["keep"] = rq.random() < 0.5     # references made now are the ones kept
         if k == "bad":
             st["val"] = rq.choice(["", "a b" if kinds[f] == "ws" else "a,b", " x", "x ",
                                    "a\nb"] + ([v_ for v_ in CMV if " " in v_] if kinds[f] == "ws"
@@ -225,12 +241,42 @@ def generate(seed, run, tier):
                   {"op": "commit", "field": f, "vi": 1},
                   {"op": "reopen", "field": f}] + ([second] if second else []) + \
                  [{"op": "commit", "field": f}]
+    if rs.random() < 0.12:
+        # references made in the middle of one session are the client's handles in the next
+        f = rq.choice(listnames)
+        pool = WSV if kinds[f] == "ws" else CMV
+        steps += [{"op": "commit", "field": f}, {"op": "open", "field": f, "interp": kinds[f]},
+                  rq.choice([{"op": "append", "field": f, "val": rq.choice(pool)},
+                             {"op": "replace", "field": f, "which": 0, "val": rq.choice(pool)}]),
+                  {"op": "ref_set", "field": f, "which": rq.choice([0, -1, 1]),
+                   "val": rq.choice(pool), "held": False, "keep": True},
+                  {"op": "commit", "field": f}, {"op": "reopen", "field": f},
+                  {"op": "ref_set", "field": f, "which": rq.choice([0, -1, 1]),
+                   "val": rq.choice(pool), "held": True},
+                  {"op": "commit", "field": f}]
+    if twins and rs.random() < 0.4:
+        # the same edit in both paragraphs, then one of them edited once more
+        f = rq.choice(twins)
+        pool = WSV if kinds[f] == "ws" else CMV
+        v1, v2 = rq.choice(pool), rq.choice(pool)
+        a, b = rq.choice([(0, 1), (1, 0)])
+        steps += [{"op": "commit", "field": f, "pi": a}, {"op": "commit", "field": f, "pi": b},
+                  {"op": "open", "field": f, "interp": kinds[f], "pi": a},
+                  {"op": "append", "field": f, "val": v1, "pi": a},
+                  {"op": "commit", "field": f, "pi": a},
+                  {"op": "open", "field": f, "interp": kinds[f], "pi": b},
+                  {"op": "append", "field": f, "val": v1, "pi": b},
+                  {"op": "commit", "field": f, "pi": b},
+                  {"op": rq.choice(["reopen", "open"]), "field": f, "interp": kinds[f], "pi": b},
+                  {"op": "append", "field": f, "val": v2, "pi": b},
+                  {"op": "commit", "field": f, "pi": b}]
     # close everything at the end so that every change gets judged
     for f in listnames:
-        steps.append({"op": "commit", "field": f})
-        if same_field:
-            steps.append({"op": "commit", "field": f, "vi": 1})
-    return {"world": {"doc": doc.to_json(), "kinds": kinds,
+        for pi_ in ([0, 1] if f in twins else [0]):
+            steps.append({"op": "commit", "field": f, "pi": pi_})
+            if same_field:
+                steps.append({"op": "commit", "field": f, "vi": 1, "pi": pi_})
+    return {"world": {"doc": doc.to_json(), "kinds": kinds, "twins": sorted(set(twins)),
                       # one long-lived dict view per interpretation, or a new one per lookup
                       "reuse_dict_view": rs.random() < 0.4}, "trace": steps}
 
@@ -241,11 +287,12 @@ def describe(case):
             "trace_len": len(case["trace"])}
 
 
-def _find(doc, name):
-    for pi, p in enumerate(doc.paras[:1]):
-        for j, s in enumerate(p):
-            if s.name == name:
-                return pi, j
+def _find(doc, name, pi=0):
+    if pi >= len(doc.paras):
+        return None
+    for j, s in enumerate(doc.paras[pi]):
+        if s.name == name:
+            return pi, j
     return None
 
 
@@ -285,7 +332,9 @@ def execute(case):
     f = parse(text)
     if f.dump() != text:
         raise Violation("initial-dump-differs", "parse", {"got": f.dump(), "want": text})
-    para = next(iter(f))
+    sut_paras = list(f)
+    twins = set(case["world"].get("twins") or [])
+    para = sut_paras[0]
     views = {}     # field -> dict(view, model list, changed, held refs {slot id: ref}, slots)
     closed = {}    # view objects that were committed and may be entered again
     open_order = []
@@ -297,19 +346,26 @@ def execute(case):
     reuse = bool(case["world"].get("reuse_dict_view"))
     dviews = {}
 
-    def dict_view(kind):
+    def dict_view(kind, P=0):
         if not reuse:
-            return para.as_interpreted_dict_view(interp[kind])
-        if kind not in dviews:
-            dviews[kind] = para.as_interpreted_dict_view(interp[kind])
+            return sut_paras[P].as_interpreted_dict_view(interp[kind])
+        if (P, kind) not in dviews:
+            dviews[(P, kind)] = sut_paras[P].as_interpreted_dict_view(interp[kind])
             out.probe("long_lived_dict_view")
-        return dviews[kind]
+        return dviews[(P, kind)]
 
-    def read_check(name, si, op):
+    def fdump():
+        try:
+            return f.dump()
+        except Exception as e:   # pylint: disable=broad-except
+            raise Violation("document-no-longer-valid-after-commit", "dump",
+                            {"error": repr(e)})
+
+    def read_check(name, si, op, P=0):
         """A lookup through the dict view and the splitter both equal what the document says."""
-        pi, j = _find(doc, name)
+        pi, j = _find(doc, name, P)
         want = split_list(doc.paras[pi][j].after_colon, kinds[name])
-        v = dict_view(kinds[name])[name]
+        v = dict_view(kinds[name], P)[name]
         got = list(v)
         if got != want:
             raise Violation("list-view-differs-from-splitting-the-field-text", op,
@@ -319,8 +375,13 @@ def execute(case):
 
     try:
         for name in sorted(kinds):
-            if _find(doc, name) is not None:
-                read_check(name, -1, "read")
+            for P_ in (0, 1):
+                if P_ and name not in twins:
+                    continue
+                if _find(doc, name, P_) is not None:
+                    read_check(name, -1, "read", P_)
+                    if P_:
+                        out.probe("same_named_list_field_in_second_paragraph")
         for si, st in enumerate(case["trace"]):
             op = st["op"]
             name = st.get("field")
@@ -332,9 +393,9 @@ def execute(case):
                 continue
             if op == "add_field":
                 # another client adds a field to the paragraph while views are open
-                before_doc = f.dump()
+                before_doc = fdump()
                 para[st["name"]] = st["val"]
-                d = f.dump()
+                d = fdump()
                 flat = [s_ for p_ in doc.paras for s_ in p_]
                 p0 = doc.paras[0]
                 if not p0[-1].body.endswith("\n"):
@@ -371,7 +432,7 @@ def execute(case):
                 else:
                     p0.insert(0, seg_)
                 getattr(para, st["how"])(st["target"])
-                d = f.dump()
+                d = fdump()
                 want_d = doc.text()
                 if d != want_d and not (not want_d.endswith("\n") and d == want_d + "\n"):
                     raise Violation("bytes-outside-the-edited-field-changed", op,
@@ -382,12 +443,15 @@ def execute(case):
                 inter.append(("para", st["how"]))
                 out.steps += 1
                 continue
-            if name not in kinds or _find(doc, name) is None:
+            P = int(st.get("pi") or 0)
+            if P and name not in twins:
+                continue
+            if name not in kinds or _find(doc, name, P) is None:
                 continue
             kind = kinds[name]
-            pi, j = _find(doc, name)
+            pi, j = _find(doc, name, P)
             seg = doc.paras[pi][j]
-            vkey = name if not st.get("vi") else name + "#2"
+            vkey = (name if not P else name + "@1") + ("" if not st.get("vi") else "#2")
             if op == "reopen":
                 # the client enters a view object it has already committed once; its list is
                 # what it was at that commit (another writer may have changed the field since)
@@ -395,11 +459,26 @@ def execute(case):
                     continue
                 V = closed.pop(vkey)
                 V["v"].__enter__()
-                V["changed"] = False
                 V["it"] = None
                 views[vkey] = V
                 open_order.append(vkey)
                 got = list(V["v"])
+                if V.get("aborted"):
+                    # the block was left through an exception with edits pending: the view
+                    # either still shows them (then the next clean close must write them) or
+                    # has gone back to the list it had when that block was entered
+                    if got == V["m"]:
+                        V["changed"] = True
+                        out.probe("view_entered_again_after_abort_with_edits_pending")
+                    elif got == V["m0"]:
+                        V["m"] = list(got)
+                        V["slots"] = list(range(len(got)))
+                        V["refs"] = {}
+                        V["next"] = len(got)
+                        V["changed"] = False
+                    V["aborted"] = False
+                else:
+                    V["changed"] = False
                 if got != V["m"]:
                     raise Violation("open-view-differs-from-edited-list", op,
                                     {"step": si, "field": name, "view_lists": got,
@@ -411,16 +490,16 @@ def execute(case):
             if op == "open":
                 if vkey in views:
                     continue
-                if any(k.split("#")[0] == name for k in views):
+                if any(k.split("#")[0] == vkey.split("#")[0] for k in views):
                     out.probe("two_views_of_the_same_field")
-                want = read_check(name, si, "open")
-                lv = dict_view(kind)[name]
+                want = read_check(name, si, "open", P)
+                lv = dict_view(kind, P)[name]
                 lv.__enter__()
                 slots = list(range(len(want)))
                 refs = dict(zip(slots, lv.iter_value_references()))
                 views[vkey] = {"v": lv, "m": list(want), "slots": slots, "refs": refs,
                                "changed": False, "next": len(want), "it": None, "itpos": 0,
-                               "itcur": None, "itlive": True, "nl": False}
+                               "itcur": None, "itlive": True, "nl": False, "m0": list(want)}
                 open_order.append(vkey)
                 lines = nl_lines(seg.after_colon)
                 if any(l.startswith("\t") for l in lines[1:]):
@@ -438,7 +517,7 @@ def execute(case):
                 continue
             V = views[vkey]
             lv, m = V["v"], V["m"]
-            before_doc = f.dump()
+            before_doc = fdump()
             where = {"step": si, "field": name, "kind": kind, "op": op,
                      "field_text": seg.body, "list_before": list(m)}
             if op in ("commit", "abort"):
@@ -451,10 +530,12 @@ def execute(case):
                     exc = None
                 except Exception as e:   # pylint: disable=broad-except
                     exc = repr(e)
+                closed[vkey] = views[vkey]
+                closed[vkey]["aborted"] = op == "abort" and changed
+                if op == "commit" and changed:
+                    closed[vkey]["nl"] = True     # the write-back ends the value on a newline
                 if op == "commit":
-                    closed[vkey] = views[vkey]
-                    if changed:
-                        closed[vkey]["nl"] = True     # the write-back ends the value on a newline
+                    closed[vkey]["m0"] = list(V["m"])
                 del views[vkey]
                 idx = open_order.index(vkey)
                 if op == "commit" and changed and idx < len(open_order) - 1:
@@ -466,7 +547,7 @@ def execute(case):
                 if exc is not None:
                     where["error"] = exc
                     raise Violation("commit-raised", op, where)
-                d = f.dump()
+                d = fdump()
                 if op == "abort" or not changed:
                     out.probe("abort_discards_changes" if op == "abort" and changed
                               else "untouched_commit")
@@ -474,7 +555,7 @@ def execute(case):
                         where.update(before=before_doc, after=d)
                         raise Violation("untouched-or-aborted-view-changed-the-document",
                                         op, where)
-                    read_check(name, si, op)
+                    read_check(name, si, op, P)
                     continue
                 committed_changed += 1
                 if not before_doc.endswith("\n") and pi == len(doc.paras) - 1 and \
@@ -512,12 +593,12 @@ def execute(case):
                 except Exception as e:   # pylint: disable=broad-except
                     where.update(dump=d, error=repr(e))
                     raise Violation("document-no-longer-valid-after-commit", op, where)
-                p2 = next(iter(f2))
+                p2 = list(f2)[pi]
                 got2 = list(p2.as_interpreted_dict_view(interp[kind])[name])
                 if got2 != m:
                     where.update(new_field_text=x, fresh_view=got2, want=m)
                     raise Violation("field-does-not-reparse-to-the-edited-list", op, where)
-                read_check(name, si, op)
+                read_check(name, si, op, P)
                 out.states.add(stable_hash(doc.to_json()))
                 continue
             # ---- a suspended reference iterator (streaming edits through references)
@@ -594,7 +675,7 @@ def execute(case):
                 log.add(si, "stale_ref", name, exc)
                 inter.append((name, "stale_ref"))
                 out.steps += 1
-                if list(lv) != m or f.dump() != before_doc:
+                if list(lv) != m or fdump() != before_doc:
                     where.update(view_lists=list(lv), want=m)
                     raise Violation("open-view-differs-from-edited-list", op, where)
                 continue
@@ -618,7 +699,7 @@ def execute(case):
                 log.add(si, "append_nl", name, exc)
                 inter.append((name, "append_nl"))
                 out.steps += 1
-                if list(lv) != m or f.dump() != before_doc:
+                if list(lv) != m or fdump() != before_doc:
                     where.update(view_lists=list(lv), want=m)
                     raise Violation("open-view-differs-from-edited-list", op, where)
                 continue
@@ -688,6 +769,9 @@ def execute(case):
                             where.update(references=len(allrefs), values=len(m))
                             raise Violation("open-view-differs-from-edited-list", op, where)
                         ref = allrefs[k]
+                        if st.get("keep"):
+                            V["refs"] = dict(zip(V["slots"], allrefs))
+                            out.probe("references_made_mid_session_kept")
                     if ref.value != m[k]:
                         where.update(reference_value=ref.value, want=m[k])
                         raise Violation("value-reference-reads-wrong-value", op, where)
@@ -726,8 +810,8 @@ def execute(case):
             if got != m:
                 where.update(view_lists=got, want=m, value=val)
                 raise Violation("open-view-differs-from-edited-list", op, where)
-            if f.dump() != before_doc:
-                where.update(before=before_doc, after=f.dump())
+            if fdump() != before_doc:
+                where.update(before=before_doc, after=fdump())
                 raise Violation("document-changed-before-commit", op, where)
     finally:
         if gc_was:
